@@ -35,24 +35,27 @@ if os.path.isdir(src) and "--noconfirm" not in a:
             shutil.copy(os.path.join(src, f), dst)
     meta.update(property=prop, kind="benign", confirmed="builds (with and without -tags verif) and passes the complete test suite", when=time.strftime("%Y-%m-%d %H:%M"))
 patch = os.path.join(dst, "patch.diff")
-subprocess.run(["git", "-C", "/repo", "checkout", "-q", "--", "."])
-p = subprocess.run(["git", "-C", "/repo", "apply", patch], capture_output=True, text=True)
-if p.returncode != 0:
-    print("patch does not apply to /repo:", p.stderr[:300]); sys.exit(9)
+# applied to a scratch worktree of /repo's HEAD (never to /repo itself); evidence / replays of these runs go to VERIF_OUT
+scratch = "/tmp/evalrepo-B%s-%s-%d" % (prop, k, os.getpid())
+subprocess.run(["git", "-C", "/repo", "worktree", "add", "-q", "--detach", scratch, "HEAD"], check=True)
 res = meta.setdefault("checks", {})
 try:
+    p = subprocess.run(["git", "-C", scratch, "apply", patch], capture_output=True, text=True)
+    if p.returncode != 0:
+        print("patch does not apply to /repo's HEAD:", p.stderr[:300]); sys.exit(9)
+    cenv = dict(os.environ, VERIF_REPO=scratch, VERIF_OUT=scratch + "-out")
     for c in checks:
         t = time.time()
-        q = subprocess.run([os.path.join(ROOT, "check"), c, "--tier", tier], capture_output=True, text=True, cwd=ROOT)
+        q = subprocess.run([os.path.join(ROOT, "check"), c, "--tier", tier], capture_output=True, text=True, cwd=ROOT, env=cenv)
         lines = [l for l in q.stdout.splitlines() if l.startswith(("VIOLATION", "  sig=", "KNOWN"))]
         res["%s/%s" % (c, tier)] = dict(rc=q.returncode, seconds=round(time.time() - t), sigs=[l.strip()[:300] for l in lines if "sig=" in l][:6])
         print("check %s --tier %s on BENIGN %s-%s -> rc=%d %s" % (c, tier, prop, k, q.returncode, "(silent, as required)" if q.returncode == 0 else "  <-- ALARM ON A BENIGN CHANGE"))
         for l in lines[:6]:
             print("   ", l[:260])
         if q.returncode == 2:
-            print(q.stderr[-800:])
+            print((q.stdout + q.stderr)[-800:])
 finally:
-    subprocess.run(["git", "-C", "/repo", "checkout", "-q", "--", "."])
-    subprocess.run(["git", "-C", "/repo", "clean", "-fdq"])
+    subprocess.run(["git", "-C", "/repo", "worktree", "remove", "--force", scratch])
+    shutil.rmtree(scratch + "-out", ignore_errors=True)
 meta["alarms"] = sorted(c for c, r in res.items() if r["rc"] != 0)
 json.dump(meta, open(meta_path, "w"), indent=1)
